@@ -398,6 +398,11 @@ func NewWorld(cm *chain.Manager, wallet rhp.Wallet) *World { return NewWorldWith
 // re-verifying signatures or revision numbers) instead of the in-repo reference contractor, so that the
 // server's own checks are what stands between a bad request and the host's state.
 func NewWorldWith(cm *chain.Manager, wallet rhp.Wallet, trusting bool) *World {
+	return NewWorldWrap(cm, wallet, trusting, nil)
+}
+
+// NewWorldWrap additionally lets the caller wrap the sector store handed to the server.
+func NewWorldWrap(cm *chain.Manager, wallet rhp.Wallet, trusting bool, wrapSectors func(rhp.Sectors) rhp.Sectors) *World {
 	cs := cm.TipState()
 	w := &World{HostKey: Key("verif-host"), RenterKey: Key("verif-renter"), CS: cs}
 	if trusting {
@@ -418,7 +423,11 @@ func NewWorldWith(cm *chain.Manager, wallet rhp.Wallet, trusting bool) *World {
 		TotalStorage:        1 << 40,
 		Prices:              w.Prices,
 	}
-	w.Srv = rhp.NewServer(w.HostKey, cm, w.Con, wallet, settingsReporter{w.Settings}, w.Sec)
+	var sectors rhp.Sectors = w.Sec
+	if wrapSectors != nil {
+		sectors = wrapSectors(w.Sec)
+	}
+	w.Srv = rhp.NewServer(w.HostKey, cm, w.Con, wallet, settingsReporter{w.Settings}, sectors)
 	mux := &Mux{accept: make(chan net.Conn), closed: make(chan struct{})}
 	w.T = &Transport{mux: mux, hostKey: w.HostKey.PublicKey()}
 	w.serveDone = make(chan struct{})
